@@ -170,6 +170,8 @@ def _run_paths(job):
         cells = [(fresh_int(f"p{k}i", 0, r - 1), fresh_int(f"p{k}j", 0, c - 1)) for k in range(L)]
         pv = [(ctx.inputs[f"p{k}i"], ctx.inputs[f"p{k}j"]) for k in range(L)]
         path = SNP.array([[i, j] for i, j in cells]) if job["as_array"] else [(i, j) for i, j in cells]
+        if job.get("dtype"):
+            path = path.astype(getattr(np, job["dtype"]))  # e.g. int8, the dtype of solutions loaded from the minimal formats
         mp = pm.MazePlot(LatticeMaze(connection_list=cl), unit_length=ul)
         if which == "true":
             mp.add_true_path(path)
@@ -217,14 +219,14 @@ def _replay_paths(job, inputs, notes):
 
     r, c, ul, L, which = job["r"], job["c"], job["ul"], job["L"], job["which"]
     cells = [(inputs.get(f"p{k}i", 0), inputs.get(f"p{k}j", 0)) for k in range(L)]
-    path = np.array(cells) if job["as_array"] else list(cells)
+    path = np.array(cells, dtype=getattr(np, job["dtype"]) if job.get("dtype") else None) if job["as_array"] else list(cells)
     mp = pm.MazePlot(LatticeMaze(connection_list=np.zeros((2, r, c), dtype=bool)), unit_length=ul)
     (mp.add_true_path if which == "true" else mp.add_predicted_path)(path)
     ax = FakeAx()
     mp.plot(fig_ax=(None, ax))
     ex = [ul * (j + 0.5) for i, j in cells]
     ey = [ul * (i + 0.5) for i, j in cells]
-    tag = f"{which} path {cells} (as {'array' if job['as_array'] else 'list'}) unit_length={ul}"
+    tag = f"{which} path {cells} (as {(job.get('dtype') or '') + ' array' if job['as_array'] else 'list'}) unit_length={ul}"
     if which == "true":
         lines = [p for p in ax.plots if len(np.ravel(p[0])) == L and not (p[2] and p[2][0] in ("o", "x"))]
         if len(lines) != 1 or list(np.ravel(lines[0][0])) != ex or list(np.ravel(lines[0][1])) != ey:
@@ -335,6 +337,9 @@ def jobs(tier, seed):
             for as_array in (True, False):
                 for r, c, ul in ([(2, 2, 3), (3, 4, 14)] if q else [(2, 2, 3), (3, 4, 14), (5, 2, 4), (8, 8, 5)]):
                     out.append(dict(h="paths", r=r, c=c, ul=ul, L=L, which=which, as_array=as_array))
+        # narrow integer paths (int8 is what the minimal serialization formats load) with large unit lengths: unit_length * index > 127
+        for r, c, ul in ([(8, 8, 19), (2, 3, 100)] if q else [(8, 8, 19), (8, 8, 31), (2, 3, 100), (6, 7, 22), (8, 3, 14)]):
+            out.append(dict(h="paths", r=r, c=c, ul=ul, L=2, which=which, as_array=True, dtype="int8"))
     for r, c in [(2, 2), (2, 3)] if q else [(2, 2), (2, 3), (3, 2)]:
         out.append(dict(h="ascii", kind="LatticeMaze", r=r, c=c))
         for kind in ("SolvedMaze", "TargetedLatticeMaze"):
@@ -368,7 +373,7 @@ META = dict(
                "_rowcol_to_coord", "_plot_path", "process_path_input", "to_ascii", "solved_maze"],
     bounds=dict(
         quick="image: all connection bits symbolic and (when supplied) every cell value an arbitrary real, grids up to 3x3 (+5x5 without and 4x4 with values at "
-              "unit_length 3), unit_length in {3,4,5,14}: one path per configuration; paths: true (line) and predicted (arrows) paths of 1..3 symbolic "
+              "unit_length 3), unit_length in {3,4,5,14}: one path per configuration; paths: true (line) and predicted (arrows) paths of 1..3 symbolic (plus int8 cell arrays with unit lengths 19 and 100, where unit_length*index exceeds 127) "
               "in-grid cells given as list and as array; ASCII export for all three kinds on 2x2 and 2x3 (all bits, solutions of 1..3 cells)",
         thorough="grids up to 4x4 (8x8 with values at unit_length 3), paths of 4 cells on grids up to 8x8, ASCII on 3x2 from every start cell",
     ),
